@@ -26,7 +26,7 @@ func init() { register(c13{}) }
 func (c13) ID() string    { return "C13" }
 func (c13) Level() string { return "exploration" }
 func (c13) Rule() string {
-	return "race-detector build: for packets of every type (rich ones: CONNECT with will and many properties, PUBLISH with all properties, SUBSCRIBE with identifier and several filters, ...) N in {2,8,32} goroutines are released together and each performs a random sequence of WriteTo, String, Dump, WellFormed and full accessor sweeps on the SHARED packet, with no synchronisation between release and join (no atomics, channels or locks), random runtime.Gosched() in the harness and GOMAXPROCS in {2,4,16}; the will *Publish is also used directly while the CONNECT holding it is encoded; ReadPacket on distinct streams (complete ones, whose result is compared with the sequential one, and ones cut inside a packet), NewX() constructors and decodes run alongside (shared package-level data). Verdict: zero 'WARNING: DATA RACE' blocks in the GORACE log; every concurrent WriteTo equals the sequential encoding. distinct = (packet type, operation a, operation b) pairs whose execution intervals overlapped on the same packet (computed after the join from goroutine-local timestamp logs); non-trivial = every such pair"
+	return "race-detector build: for packets of every type (rich ones: CONNECT with will and many properties, PUBLISH with all properties, SUBSCRIBE with identifier and several filters, ...; one case in eight a large one whose frame has 20 KiB .. 1 MiB) N in {2,8,32} goroutines are released together and each performs a random sequence of WriteTo, String, Dump, WellFormed and full accessor sweeps on the SHARED packet, with no synchronisation between release and join (no atomics, channels or locks), random runtime.Gosched() in the harness and GOMAXPROCS in {2,4,16}; the will *Publish is also used directly while the CONNECT holding it is encoded; ReadPacket on distinct streams (complete ones, whose result is compared with the sequential one, and ones cut inside a packet), NewX() constructors and decodes run alongside (shared package-level data). Verdict: zero 'WARNING: DATA RACE' blocks in the GORACE log; every concurrent WriteTo equals the sequential encoding. distinct = (packet type, operation a, operation b) pairs whose execution intervals overlapped on the same packet (computed after the join from goroutine-local timestamp logs); non-trivial = every such pair"
 }
 func (c13) Assumptions() []string {
 	return []string{"the race detector is a happens-before detector with bounded shadow history: silence on the runs made is evidence, not proof", "the harness adds no happens-before edges between release and join (goroutine-local logs, merged after the join)"}
@@ -85,6 +85,25 @@ func (c13) Run(c *run.Ctx, phase, idx int) {
 			a.WillTopic = "will/topic"
 		}
 	}
+	big := 0
+	if idx%8 == 5 && (ref.HasProps(t) || t == ref.TPublish) {
+		// the large messages a broker fans out: frames of 20 KiB .. 1 MiB
+		// (size thresholds for pooled or kept buffers sit here, far above
+		// what the small packets reach)
+		big = gen.Pick(r, 20<<10, 32<<10, 33<<10, 64<<10, 70<<10, 150<<10, 300<<10, 1<<20)
+		switch t {
+		case ref.TPublish:
+			a.Payload = r.Bytes(big)
+		case ref.TConnect:
+			a.WillPayload = r.Bytes(60000)
+			fallthrough
+		default:
+			for n := 0; n < big; n += 8200 {
+				a.Props = append(a.Props, ref.Prop{ID: 0x26, S: "k" + itoa(n), V: gen.UTF8(r, 8192)})
+			}
+		}
+		c.Count("shared-packet-size", fmt.Sprintf(">=%dKiB", big>>10), 1)
+	}
 	pkt, err := bind.Build(a)
 	if err != nil {
 		c.Count("skipped", "no-setter", 1)
@@ -125,6 +144,12 @@ func (c13) Run(c *run.Ctx, phase, idx int) {
 	rounds := 40
 	if N == 32 {
 		rounds = 12
+	}
+	if big > 0 {
+		rounds = 6
+		if N == 32 {
+			N = 8
+		}
 	}
 	old := runtime.GOMAXPROCS(procs)
 	defer runtime.GOMAXPROCS(old)
